@@ -10,7 +10,7 @@ from ..common import Snapshot
 from . import c13
 
 PLAN = {
-    "quick": {"shards": 8, "cases": 250, "min_nontrivial": 1200, "budget_s": 240},
+    "quick": {"shards": 8, "cases": 1000, "min_nontrivial": 4000, "budget_s": 300},
     "thorough": {"shards": 16, "cases": 4000, "min_nontrivial": 40000, "budget_s": 1200},
 }
 RULE = ("schemas over every field family including nested schemas, config-type fields, lists/dicts of typed items, "
@@ -23,7 +23,7 @@ RULE = ("schemas over every field family including nested schemas, config-type f
         "inspect.signature(function) minus its first parameter, nothing is written to stdout (captured at file-"
         "descriptor level and through sys.stdout), schema fingerprint and configuration snapshot unchanged; "
         "non-trivial = >= 3 fields and (>= 1 method or virtual field or nested part); distinct = distinct schema")
-REQUIRED = ("stubs_parsed", "attribute_sets_compared", "init_signatures_compared", "method_signatures_compared",
+REQUIRED = ("repeat_generations_compared", "dynamic_config_with_adhoc_field", "stubs_parsed", "attribute_sets_compared", "init_signatures_compared", "method_signatures_compared",
             "stdout_captures", "side_effect_checks", "input:schema", "input:config", "input:configtype",
             "methods_with_return_annotation", "schemas_with_configtype_field")
 ASSUMPTIONS = ["functions always name their first (configuration) parameter; positional-only parameters are not generated"]
@@ -65,7 +65,8 @@ def gen_method(rng, key):
 
 def generate(rng, ctx):
     depth = rng.choice([0, 1, 2])
-    schema = gen.gen_schema(rng, depth=depth, width=rng.choice([2, 4, 6]), defaults=0.3, ctypes=rng.random() < 0.5)
+    schema = gen.gen_schema(rng, depth=depth, width=rng.choice([2, 4, 6]), defaults=0.3, ctypes=rng.random() < 0.5,
+                            dynamic=0.3)
     extra = gen.pick_keys(rng, 6, avoid={ch["key"] for ch in schema["fields"]})
     for _ in range(rng.choice([0, 1, 2])):
         schema["fields"].insert(rng.randrange(len(schema["fields"]) + 1),
@@ -134,6 +135,13 @@ def run(case, ctx, res):
     name = case["name"]
     res.count("input:" + case["as"])
     cfg = schema()
+    if root.get("dynamic"):
+        # fields added on the fly to a dynamic configuration stay with that configuration
+        try:
+            cfg.adhoc_extra = 5
+            res.count("dynamic_config_with_adhoc_field")
+        except Exception:
+            pass
     if case["as"] == "schema":
         target, kw = schema, {"class_name": name}
     elif case["as"] == "config":
@@ -156,6 +164,19 @@ def run(case, ctx, res):
         except Exception as exc:
             stub, err = None, exc
     res.count("stdout_captures")
+    if err is None:
+        # generating again (same schema, same function objects) must give the same text
+        with Capture() as cap2:
+            try:
+                again = cc.generate_stub(target, **kw)
+                err2 = None
+            except Exception as exc:
+                again, err2 = None, exc
+        res.count("repeat_generations_compared")
+        if err2 is not None or again != stub or cap2.text or cap2.fd_bytes:
+            res.viol("M-stub", "second-generation-differs", "generating the stub a second time %s" % (
+                "raised %r" % err2 if err2 else "gave different text: %r vs %r" % (_firstdiff(stub, again))))
+            return
     if err is not None:
         res.viol("M-stub", "raises:" + feat, "generate_stub(%s) raised %s: %s" % (case["as"], type(err).__name__, str(err)[:200]))
         return
@@ -236,6 +257,14 @@ def run(case, ctx, res):
         return
     if len(attrs) >= 3 and (methods or len(attrs) != len(init) or any(ch["kind"] != "field" for ch in root["fields"])):
         res.nontrivial(case["schema"], case["as"])
+
+
+def _firstdiff(a, b):
+    la, lb = (a or "").splitlines(), (b or "").splitlines()
+    for x, y in zip(la, lb):
+        if x != y:
+            return x[:200], y[:200]
+    return "%d lines" % len(la), "%d lines" % len(lb)
 
 
 def _is_virtual(root, key):
